@@ -236,3 +236,38 @@ def _extra_rules(ctx, P):
     from . import C11 as c11
     r3 = ctx.rule("C05.R3", "xcm.blocking=false from the attribute map is applied before the connect: no setter can stop the map walk without failing the call")
     c11.check_setter_status(P, r3)
+
+    # a switch to blocking mode that FAILS (the pending work could not be finished: EINTR, a connection error) must leave
+    # the socket non-blocking: the application was told so and keeps using the non-blocking calls
+    from .. import seq as S
+    r4 = ctx.rule("C05.R4", "xcm_set_blocking changes the mode only when it succeeds: no failing exit has stored the blocking flag")
+    sb = P.fn("xcm_set_blocking")
+    r4.instance(sb.qname)
+    bad4 = []
+    nst = [0]
+
+    class Mode(S.SeqRule):
+        def user0(s2, fn):
+            return False
+
+        def inline(s2, fn, nid, callee):
+            return False
+
+        def on_store(s2, fn, st, nid, lhs, rhs, op):
+            if fn.fields_of(lhs)[-1:] == ("is_blocking",):
+                nst[0] += 1
+                return True
+            return None
+
+        def on_exit(s2, fn, st, ret_nid, ret_cls, top):
+            if top and ret_cls == S.NEG and st.user and not bad4:
+                bad4.append(ret_nid)
+    S.run(Mode(P), sb)
+    if nst[0] < 1:
+        from ..report import Broken
+        raise Broken("C05.R4: xcm_set_blocking does not store the blocking flag")
+    if bad4:
+        r4.violation("xcm_set_blocking:mode-changed-on-failure", "xcm_set_blocking can fail after it has already stored the new mode: the caller is told the socket is still "
+                     "non-blocking while the library treats it as blocking - the next xcm_receive()/xcm_send() sleeps in poll()", loc=sb.loc(bad4[0]) if bad4[0] else sb.file)
+    else:
+        r4.ok("every failing exit of xcm_set_blocking leaves the flag as it was", "path exploration")
